@@ -122,200 +122,6 @@ func allocOffset(c *ssa.Call, delta ssa.Value) (int64, bool) {
 	return walk(c, false, 0, 0)
 }
 
-// ---------- GRD-idmap ----------
-
-func ruleGRDidmap(w *World, r *Report) {
-	r.Doc("GRD-idmap", "the external↔internal id maps stay inverse on live nodes: a forward store is paired with the reverse store; a forward entry found through the reverse map is deleted only if it still points at that internal id; tombstoned nodes are never (re-)registered in the forward map", 5)
-	n := 0
-	for _, fi := range w.ModuleFuncs() {
-		if relPkg(fi.Obj) != "pkg/core/hnsw" || fi.Decl.Body == nil {
-			continue
-		}
-		info := fi.Pkg.TypesInfo
-		name := shortName(fi.Obj)
-		isMapField := func(e ast.Expr, field string) bool {
-			sel, ok := ast.Unparen(e).(*ast.SelectorExpr)
-			return ok && sel.Sel.Name == field
-		}
-		// stores
-		var fwdStores, revStores []*ast.AssignStmt
-		ast.Inspect(fi.Decl.Body, func(m ast.Node) bool {
-			as, ok := m.(*ast.AssignStmt)
-			if !ok || len(as.Lhs) != 1 {
-				return true
-			}
-			ix, ok := as.Lhs[0].(*ast.IndexExpr)
-			if !ok {
-				return true
-			}
-			if isMapField(ix.X, "externalToInternalID") {
-				fwdStores = append(fwdStores, as)
-			}
-			if isMapField(ix.X, "internalToExternalID") {
-				revStores = append(revStores, as)
-			}
-			return true
-		})
-		for i, fs := range fwdStores {
-			n++
-			k := exprString(fs.Lhs[0].(*ast.IndexExpr).Index)
-			v := exprString(fs.Rhs[0])
-			paired := false
-			for _, rs := range revStores {
-				if exprString(rs.Lhs[0].(*ast.IndexExpr).Index) == v && exprString(rs.Rhs[0]) == k {
-					paired = true
-				}
-			}
-			r.Cond(paired, "GRD-idmap", fmt.Sprintf("%s:forward-store#%d:paired", name, i+1), w.Pos(fs.Pos()), "externalToInternalID[k]=v is paired with internalToExternalID[v]=k",
-				name+" registers an external id without the matching reverse entry: GetExternalID/search translation and vacuum lose track of the node")
-			// when the value stored comes from iterating nodes, tombstones must be skipped
-			if guarded, applies := tombstoneGuard(info, fi.Decl.Body, fs); applies {
-				r.Cond(guarded, "GRD-idmap", fmt.Sprintf("%s:forward-store#%d:not-deleted", name, i+1), w.Pos(fs.Pos()), "store is guarded by the not-Deleted test",
-					name+" registers every node it iterates over in the external id map, soft-deleted ones included: a deleted id 'already exists' again (cannot be re-added), and for a deleted-then-re-added id the tombstone competes with the live node (with map iteration order deciding which wins)")
-			}
-		}
-		// deletes of forward entries keyed by a reverse look-up
-		ast.Inspect(fi.Decl.Body, func(m ast.Node) bool {
-			ifs, ok := m.(*ast.IfStmt)
-			if !ok || ifs.Init == nil {
-				return true
-			}
-			as, ok := ifs.Init.(*ast.AssignStmt)
-			if !ok || len(as.Lhs) != 2 || len(as.Rhs) != 1 {
-				return true
-			}
-			ix, ok := as.Rhs[0].(*ast.IndexExpr)
-			if !ok || !isMapField(ix.X, "internalToExternalID") {
-				return true
-			}
-			keyVar, ok := as.Lhs[0].(*ast.Ident)
-			if !ok {
-				return true
-			}
-			idExpr := exprString(ix.Index)
-			// deletes of externalToInternalID[keyVar] inside this if
-			ast.Inspect(ifs.Body, func(d ast.Node) bool {
-				call, ok := d.(*ast.CallExpr)
-				if !ok {
-					return true
-				}
-				id, ok := call.Fun.(*ast.Ident)
-				if !ok || id.Name != "delete" || len(call.Args) != 2 || !isMapField(call.Args[0], "externalToInternalID") {
-					return true
-				}
-				if kid, ok := call.Args[1].(*ast.Ident); !ok || kid.Name != keyVar.Name {
-					return true
-				}
-				n++
-				// must be nested in an if that checks externalToInternalID[key] == id
-				guarded := false
-				ast.Inspect(ifs.Body, func(g ast.Node) bool {
-					gi, ok := g.(*ast.IfStmt)
-					if !ok || gi.Init == nil {
-						return true
-					}
-					gas, ok := gi.Init.(*ast.AssignStmt)
-					if !ok || len(gas.Rhs) != 1 {
-						return true
-					}
-					gix, ok := gas.Rhs[0].(*ast.IndexExpr)
-					if !ok || !isMapField(gix.X, "externalToInternalID") || exprString(gix.Index) != keyVar.Name {
-						return true
-					}
-					cur, ok := gas.Lhs[0].(*ast.Ident)
-					if !ok {
-						return true
-					}
-					cmp := false
-					ast.Inspect(gi.Cond, func(c ast.Node) bool {
-						if be, ok := c.(*ast.BinaryExpr); ok && be.Op == token.EQL {
-							l, rr := exprString(be.X), exprString(be.Y)
-							if (l == cur.Name && rr == idExpr) || (rr == cur.Name && l == idExpr) {
-								cmp = true
-							}
-						}
-						return true
-					})
-					if cmp && nodeContains(gi.Body, call) {
-						guarded = true
-					}
-					return true
-				})
-				r.Cond(guarded, "GRD-idmap", name+":reverse-keyed-delete:still-points-here", w.Pos(call.Pos()), "forward entry is deleted only if it still maps to this internal id",
-					name+" deletes externalToInternalID[ext] for a dead internal id without checking that the entry still points at it: after delete → re-add of the same id the mapping of the LIVE node is removed and it can no longer be read, updated or deleted by id")
-				return true
-			})
-			return true
-		})
-	}
-	if n == 0 {
-		r.Und("GRD-idmap", "anchor:id-map-writes", "", "no writes to the id maps found in pkg/core/hnsw")
-	}
-}
-
-func nodeContains(outer ast.Node, inner ast.Node) bool {
-	found := false
-	ast.Inspect(outer, func(n ast.Node) bool {
-		if n == inner {
-			found = true
-		}
-		return !found
-	})
-	return found
-}
-
-// tombstoneGuard: if the store sits in a loop that ranges over a collection of *Node (value variable of
-// type *Node, used in the store), report whether the store is inside an `if !node.Deleted.Load()` (or the
-// loop `continue`s on Deleted before it).
-func tombstoneGuard(info *types.Info, body *ast.BlockStmt, store *ast.AssignStmt) (guarded, applies bool) {
-	var stack []ast.Node
-	ast.Inspect(body, func(n ast.Node) bool {
-		if n == nil {
-			stack = stack[:len(stack)-1]
-			return true
-		}
-		stack = append(stack, n)
-		if n != ast.Node(store) {
-			return true
-		}
-		for i := len(stack) - 2; i >= 0; i-- {
-			rs, ok := stack[i].(*ast.RangeStmt)
-			if !ok {
-				continue
-			}
-			v, ok := rs.Value.(*ast.Ident)
-			if !ok {
-				break
-			}
-			t := info.TypeOf(v)
-			if t == nil || !strings.HasSuffix(t.String(), "hnsw.Node") {
-				break
-			}
-			if !strings.Contains(exprString(store.Lhs[0])+exprString(store.Rhs[0]), v.Name+".") {
-				break
-			}
-			applies = true
-			// guard: an enclosing if with !v.Deleted.Load(), or an earlier `if v.Deleted.Load() { continue }` in the loop body
-			for j := len(stack) - 2; j > i; j-- {
-				if ifs, ok := stack[j].(*ast.IfStmt); ok && strings.Contains(exprString(ifs.Cond), "!"+v.Name+".Deleted.Load()") {
-					guarded = true
-				}
-			}
-			for _, st := range rs.Body.List {
-				if st.Pos() >= store.Pos() {
-					break
-				}
-				if ifs, ok := st.(*ast.IfStmt); ok && strings.Contains(exprString(ifs.Cond), v.Name+".Deleted.Load()") && !strings.Contains(exprString(ifs.Cond), "!"+v.Name+".Deleted") && bodyIsContinue(ifs.Body) {
-					guarded = true
-				}
-			}
-			break
-		}
-		return true
-	})
-	return
-}
-
 // ---------- GRD-list: listings and counts use the tombstone flag ----------
 
 func ruleGRDlist(w *World, r *Report) {
